@@ -758,8 +758,6 @@ def _emit_zipfold(args, inner, line, nzip, unit_name, log):
         if not m:
             raise Undecided("R12: producer %r is not IDENT.axis_iter[_mut](AX) (line %d)" % (norm(text_of(a)), line))
         recv.append(m.group(1)); meth.append(m.group(2)); axes.append(m.group(3))
-    if len(set(axes)) != 1:
-        raise Undecided("R12: producers iterate different axes (line %d)" % line)
     ax = axes[0]
     z = "zip%d" % nzip
     # the closure parameters are alpha-renamed to fresh names (zipK_pI) so that the items stay nameable after the call
@@ -774,14 +772,14 @@ def _emit_zipfold(args, inner, line, nzip, unit_name, log):
             prev = tk
     btxt = _rewrite_R13(rb, line, log)
     txt = ["{"]
-    txt.append("zipfold_check%d(%s, %s);" % (len(args), ", ".join("&*" + r if mt == "axis_iter_mut" else "&" + r for r, mt in zip(recv, meth)), ax))
+    txt.append("zipfold_check%d(%s);" % (len(args), ", ".join(("&*" + r if mt == "axis_iter_mut" else "&" + r) + ", " + a_ for r, mt, a_ in zip(recv, meth, axes))))
     txt.append("let %s_n = %s.len_of(%s); let mut %s_i: usize = 0; let mut %s_acc = %s; let mut %s_go = true;" % (z, recv[0], ax, z, z, init, z))
     txt.append("while %s_go && %s_i < %s_n" % (z, z, z))
     txt.append("/*@ZIPLOOP@*/{")
     if params[0] != "_":
         txt.append("let %s = %s_acc;" % (params[0], z))
     for idx, (r, mt) in enumerate(zip(recv, meth)):
-        txt.append("let %s_p%d = %s.%s(%s, %s_i);" % (z, idx, r, "axis_item_mut" if mt == "axis_iter_mut" else "axis_item", ax, z))
+        txt.append("let %s_p%d = %s.%s(%s, %s_i);" % (z, idx, r, "axis_item_mut" if mt == "axis_iter_mut" else "axis_item", axes[idx], z))
     txt.append("let %s_r = %s;" % (z, btxt))
     txt.append("match %s_r { FoldWhile::Continue(%s_v) => { %s_acc = %s_v; } FoldWhile::Done(%s_v) => { %s_acc = %s_v; %s_go = false; } }" % (z, z, z, z, z, z, z, z))
     txt.append("%s_i += 1;" % z)
